@@ -275,8 +275,12 @@ def roundtrip(col, item):
     data = CONTENTS[cname]
     work = tempfile.mkdtemp(prefix="verif-c12-")
     try:
-        base = {"plain": "file", "dots": "a.b.c.nc", "suffixchars": {"zip": "temp.p", "gz": "log.gz", "bz2": "b2", "xz": "x.x"}[fmt]}[naming]
-        target = os.path.join(work, base + "." + fmt)
+        base = {"plain": "file", "dots": "a.b.c.nc", "suffixchars": {"zip": "temp.p", "gz": "log.gz", "bz2": "b2", "xz": "x.x"}[fmt],
+                "uppercase": "DATA", "mixedcase": "map.v2"}[naming]
+        # an upper- or mixed-case suffix is either a compression suffix or it is not: the name is passed through untouched
+        # or a genuine archive is stored -- in both readings the bytes come back and exactly one file is left
+        suffix = fmt.upper() if naming == "uppercase" else fmt.capitalize() if naming == "mixedcase" else fmt
+        target = os.path.join(work, base + "." + suffix)
         with U.compress(target, tmpdir=work) as name:
             with open(name, "wb") as f:
                 f.write(data)
@@ -286,6 +290,15 @@ def roundtrip(col, item):
         rep = {"abstract": {"mode": "roundtrip", "fault": "none"}, "concrete": {"format": fmt, "content": cname, "naming": naming}}
         if back != data:
             col.violation("roundtrip-content-" + fmt, dict(rep, observed=len(back)))
+        if naming in ("uppercase", "mixedcase") and os.path.exists(target):
+            raw = open(target, "rb").read()
+            genuine = False
+            try:
+                genuine = stdlib_read(target, fmt, None) == data
+            except Exception:
+                pass
+            if raw != data and not genuine:
+                col.violation("neither-passed-through-nor-genuine-archive-" + fmt, dict(rep, observed=len(raw)))
         if sorted(os.listdir(work)) != [os.path.basename(target)]:
             col.violation("debris-roundtrip", dict(rep, observed=sorted(os.listdir(work))))
     except Exception as ex:
@@ -358,7 +371,7 @@ def run(ctx):
                     seq += 1
                     items.append((c, fmt, cname, naming, seq))
     pmap(ctx, replay, items)
-    pmap(ctx, roundtrip, [(f, c, n) for f in FORMATS for c in CONTENTS for n in ("plain", "dots", "suffixchars")])
+    pmap(ctx, roundtrip, [(f, c, n) for f in FORMATS for c in CONTENTS for n in ("plain", "dots", "suffixchars", "uppercase", "mixedcase")])
     pmap(ctx, nested, FORMATS, procs=1)
     ctx.traces += len(items)
     ctx.sample({"terminal_state": cases[3], "replayed_as": {"format": "gz", "content": "chunks", "naming": "dots"}})
